@@ -251,6 +251,10 @@ VARIANTS = [
     V("variance finalizer does not clamp its difference of squares", ("C02", "C04"), "R-NANFINAL", "aggregations.py", '    result = np.maximum(result, 0)\n', '', must_mention="negative"),
     V("twin: variance finalizer clamps with np.clip", ("C02", "C04"), "", "aggregations.py", '    result = np.maximum(result, 0)\n', '    result = np.clip(result, 0, None)\n', expect="silent"),
     V("positions un-sorted through an empty sorter", ("C19",), "R-EMPTYIDX", "core.py", '            if not sort and len(expect) > 0:', '            if not sort:', must_mention="sorter"),
+    V("block sets turned into slices by end-point arithmetic", ("C09",), "R-SLICEEXACT", "core.py", '            elif _issorted(i) and np.array_equal(i, np.arange(i[0], i[-1] + 1)):', '            elif _issorted(i) and i[-1] - i[0] == len(i) - 1 + 0 * i[0]:', must_mention="0:7:2"),
+    V("integer bin edges cast to float64 before the IntervalIndex is built", ("C07",), "R-EDGEVALUE", "core.py", '                out.append(pd.IntervalIndex.from_breaks(ex))', '                edges = np.asarray(ex)\n                if edges.dtype.kind in "iu":\n                    edges = edges.astype(np.float64)\n                out.append(pd.IntervalIndex.from_breaks(edges))', must_mention="2**53"),
+    V("twin: bin edges wrapped with np.asarray first", ("C07",), "", "core.py", '                out.append(pd.IntervalIndex.from_breaks(ex))', '                edges = np.asarray(ex)\n                out.append(pd.IntervalIndex.from_breaks(edges))', expect="silent"),
+    V("intervals with gaps binned as if contiguous", ("C07",), "R-CLOSEDSIDE", "core.py", '            rights = expect.right.to_numpy()\n            if len(rights) > 1 and not np.array_equal(rights[:-1], expect.left.to_numpy()[1:]):', '            rights = bins[1:]\n            if False:', must_mention="gap"),
     V("dtype promotion memoised with an untyped key", ("C14",), "R-MEMO", "xrdtypes.py", '        dtype = np.result_type(dtype, fill_value)\n    return dtype\n',
       '        dtype = _promote_for_fill_value(dtype, fill_value)\n    return dtype\n\n\n@functools.lru_cache\ndef _promote_for_fill_value(dtype: np.dtype, fill_value) -> np.dtype:\n    return np.result_type(dtype, fill_value)\n', must_mention="typed"),
     V("twin: dtype promotion memoised with typed=True", ("C14",), "", "xrdtypes.py", '        dtype = np.result_type(dtype, fill_value)\n    return dtype\n',
